@@ -497,11 +497,16 @@ class Registry:
                         it.exec_stmt(st, gf)
             finally:
                 run.spec_depth -= 1
+        n_choose0 = getattr(run, "n_choose", 0)
         for en in c["ensures"]:
             if isinstance(en, tuple) and en[0].endswith("!"):
                 continue        # property-derived clause: checked against the code, never assumed by callers
             en_text = en[1] if isinstance(en, tuple) else en
             run.assume(zbool(self.eval_clause(it, en_text, cf, result=result, old=old)))
+        if getattr(run, "n_choose", 0) > n_choose0 and not run.feasible(z3.BoolVal(True)):
+            # the postconditions materialised lazily represented results (None or an object): this combination of
+            # choices is excluded by the contract itself -- the path ends, the other choices are explored separately
+            raise X.PathEnd()
         # a public method re-establishes the class invariant of its receiver
         selfv = env.get("self")
         if c.get("check_invariant", True) and isinstance(selfv, Ref) and isinstance(run.obj(selfv), HObj):
@@ -519,6 +524,10 @@ class Registry:
         run = it.run
         selfv = env.get("self")
         for m in modifies:
+            if m.startswith("subtree:"):
+                _, pname, fld = m.split(":")
+                self._havoc_subtree(it, env.get(pname), fld, cname, 0)
+                continue
             if m.startswith("ghost."):
                 g = m[6:]
                 k = self.classes[run.obj(selfv).cls]
@@ -540,6 +549,29 @@ class Registry:
             if ty is None:
                 raise Unsupported("modifies: no declared type for %s.%s" % (o.cls, m))
             o.fields[m] = self.make_symbolic(it, ty, "hv!%s.%s" % (cname, m))
+
+
+    def _havoc_subtree(self, it, v, fld, cname, depth):
+        """the callee may have changed field ``fld`` of the node and of every node below it: the node and its
+        materialised children get a fresh value, links below that are forgotten (fresh unmaterialised nodes; A-LIST)"""
+        run = it.run
+        v = v.value if isinstance(v, X.SLazy) else v
+        if isinstance(v, SOpt):
+            v = v.val
+        if not isinstance(v, Ref):
+            return
+        o = run.obj(v)
+        k = self.classes.get(o.cls)
+        o.fields[fld] = self.make_symbolic(it, k["fields"][fld], "hv!%s.%s" % (cname, fld))
+        for f, ty in k["fields"].items():
+            if ty.startswith("Lazy[") or ty.startswith("LazyNN["):
+                cur = o.fields.get(f)
+                if isinstance(cur, X.SLazy) and cur.forced and cur.value is not None and depth < 1:
+                    self._havoc_subtree(it, cur, fld, cname, depth + 1)
+                elif isinstance(cur, X.SLazy) and cur.forced and cur.value is not None:
+                    run.fresh_n += 1
+                    nl = X.SLazy(cur.cls, "%s!hv%d" % (cur.name, run.fresh_n), nullable=False)
+                    o.fields[f] = nl
 
 
 class OldState:
@@ -634,6 +666,8 @@ def import_value(run, v, heap, memo):
 
 def _spec_implies(self, e, fr):
     a = self.run.truth(self.ev(e.args[0], fr))
+    if is_z3(a) and z3.is_false(z3.simplify(a)):
+        a = False
     if a is False:
         return True
     try:
@@ -750,6 +784,45 @@ def _spec_label_eq(self, e, fr):
     return self.run.eq(a, b)
 
 
+def _spec_forall_int(self, e, fr):
+    """forall_int(k, body): body holds for every integer k (dictionary keys: strings are integer codes)"""
+    name = e.args[0].id
+    self.run.fresh_n += 1
+    v = z3.Int("%s!q%d" % (name, self.run.fresh_n))
+    sf = X.Frame(dict(fr.env), fr.fi, fr.cls, parent=fr.parent, module=fr.module)
+    sf.spec = fr.spec
+    sf.env[name] = v
+    body = zbool(self.run.truth(self.ev_guarded(e.args[1], sf, True)))
+    return z3.ForAll([v], body)
+
+
+def _spec_invariant_of(self, e, fr):
+    """the declared class invariant of the object (all clauses), evaluated with self := that object"""
+    x = self.force(self.ev(e.args[0], fr))
+    if isinstance(x, SOpt):
+        x = self.run.unopt(x, "invariant_of")
+    if not isinstance(x, Ref):
+        raise X.PyRaise("TypeError", "invariant_of(None)")
+    o = self.run.obj(x)
+    k = self.ctx.reg.classes.get(o.cls)
+    if k is None:
+        raise Unsupported("invariant_of: no klass declaration for %s" % o.cls)
+    parts = []
+    for inv in k["invariant"]:
+        txt = inv[1] if isinstance(inv, tuple) else inv
+        sf = X.Frame({"self": x}, fr.fi, fr.cls, parent=fr.parent, module=fr.module)
+        sf.spec = fr.spec
+        parts.append(self.run.truth(self.ev(self.ctx.reg.parse(txt), sf)))
+    return AND(*parts)
+
+
+def _spec_keyof(self, e, fr):
+    return self.mapkey(self.ev(e.args[0], fr))
+
+
+X.Interp.spec_forall_int = _spec_forall_int
+X.Interp.spec_invariant_of = _spec_invariant_of
+X.Interp.spec_keyof = _spec_keyof
 X.Interp.spec_old = _spec_old
 X.Interp.spec_implies = _spec_implies
 X.Interp.spec_forall = _spec_forall
